@@ -34,6 +34,7 @@ VEMPTY = r"validate_empty$"
 
 EXPLANATION += " (R1, round 8) the production validate closure is an evaluated table (accepts exactly when validate_empty and validate_entry succeeded on the entry it received, for this replica's id, origin Sync). (R10) every implementation of PublicKeyStore::public_key evaluated: the key an id resolves to is parsed from exactly that id; the cache is looked up and filled under the id itself."
 EXPLANATION += " Round 9: (R4) the pinned canonical layout evaluated (Entry::encode: identifier, big-endian length, hash, big-endian timestamp); (R11) = C07.R1: a merge never changes the replica's namespace."
+EXPLANATION += ' (R12, round 10) sync::system_time_now evaluated: microseconds since the epoch of SystemTime::now() and nothing else (no static high-water mark).'
 
 
 def production_closures(f):
